@@ -151,9 +151,10 @@ pub fn case_json(ctx: &mut Ctx, case: &Case) -> Value {
                 // candidate contents: between the end of comment i and the start of comment j > i
                 // (a block's content starts after a comment holding a start tag and ends before one holding an end tag)
                 if !case.patterns.is_empty() {
-                    let has = |k: usize, needle: &str| t.get(nodes[k].0..nodes[k].1).map(|c| c.contains(needle)).unwrap_or(true);
-                    let starts: Vec<bool> = (0..nodes.len()).map(|k| has(k, "<block")).collect();
-                    let ends: Vec<bool> = (0..nodes.len()).map(|k| has(k, "</block")).collect();
+                    // deliberately loose (end tags may be spelled `< / block >`): any comment mentioning `block`
+                    let has = |k: usize, needles: &[&str]| t.get(nodes[k].0..nodes[k].1).map(|c| needles.iter().all(|n| c.contains(n))).unwrap_or(true);
+                    let starts: Vec<bool> = (0..nodes.len()).map(|k| has(k, &["<", "block"])).collect();
+                    let ends: Vec<bool> = (0..nodes.len()).map(|k| has(k, &["<", "/", "block"])).collect();
                     for i in 0..nodes.len() {
                         if !starts[i] { continue; }
                         for j in (i + 1)..nodes.len() {
@@ -293,6 +294,11 @@ pub fn run_impl(_ctx: &mut Ctx, case: &Case) -> Value {
             Err(e) => return json!({"changes": changes_json, "ctx": {"files": dump}, "run": {"err": [classify_run_error(&format!("{e:#}"))]}, "exit": 1}),
         };
         let detected = s.len() + a.len();
+        // a run with async validators builds its own tokio runtime (one thread per core): sixteen of those being set up
+        // and torn down concurrently in one process contend on the address-space lock and get ten times slower, so
+        // such runs take turns (the runs themselves still use the full runtime; the binary is exercised separately)
+        static ASYNC_TURN: std::sync::Mutex<()> = std::sync::Mutex::new(());
+        let _turn = if a.is_empty() { None } else { Some(ASYNC_TURN.lock().unwrap_or_else(|e| e.into_inner())) };
         match validators::run(Arc::new(vctx), s, a) {
             Err(e) => json!({"changes": changes_json, "ctx": {"files": dump}, "detected_count": detected, "run": {"err": [classify_run_error(&format!("{e:#}"))], "msg": format!("{e:#}")}, "exit": 1}),
             Ok(v) => {
